@@ -150,7 +150,43 @@ func runQueue(h *verifx.H, r *verifx.Rng) {
 	adjusted, waitedDuringAdjust := false, false
 	for i := 0; i < nops; i++ {
 		active, _ := x.q.Observe()
-		switch r.Pick(5, 2, 4, 2) {
+		switch r.Pick(5, 2, 4, 2, 2) {
+		case 4: // release racing with the cancellation of one parked query
+			var parked []int
+			for id := range x.pending {
+				parked = append(parked, id)
+			}
+			if active <= 0 || len(parked) == 0 {
+				continue
+			}
+			sort.Ints(parked)
+			id := parked[r.Intn(len(parked))]
+			h.Stat("q.relcancel", 1)
+			h.Op("q relcancel %d", id)
+			queue.VerifReleaseRacingCancel(x.q, x.cancels[id], func() { time.Sleep(300 * time.Microsecond) })
+			var grants, cancelled []int
+			deadline := time.Now().Add(10 * time.Second)
+			for {
+				g, c, hang := x.settle()
+				grants, cancelled = append(grants, g...), append(cancelled, c...)
+				if !x.pending[id] && !hang {
+					break
+				}
+				if time.Now().After(deadline) {
+					h.Viol("queue-hang", "release racing with cancel of %d never settled", id)
+					return
+				}
+			}
+			for _, c := range cancelled {
+				u := x.user[c]
+				x.waitQ[u]--
+				if x.waitQ[u] <= 0 {
+					delete(x.passed, u)
+					x.waitQ[u] = 0
+				}
+			}
+			h.NonTrivial("cancel-races-grant")
+			x.observe("relcancel", true, grants)
 		case 0: // acquire
 			u, id := r.Range(1, users), nextQ
 			nextQ++
@@ -251,6 +287,7 @@ type sh struct {
 	rets    chan ret
 	pending map[int]bool
 	fifo    []int       // parked ids in arrival order (harness' own bookkeeping)
+	heldSum func() int64
 	weight  map[int]int64
 }
 
@@ -304,6 +341,13 @@ func (x *sh) observe(opname string, grants, failed []int, parkedBefore []int) {
 	sort.Ints(failed)
 	x.h.Obs("s cur=%d size=%d waiting=%d granted=%s failed=%s", cur, size, waiting, verifx.List(grants), verifx.List(failed))
 	// ---- direct oracle
+	if x.heldSum != nil {
+		if hs := x.heldSum(); hs != cur {
+			x.h.Viol("sem-accounting-cur", "op=%s cur=%d but the callers hold %d", opname, cur, hs)
+		} else if len(grants) > 0 && hs > size {
+			x.h.Viol("sem-over-size", "op=%s admitted %v although callers hold %d > size=%d", opname, grants, hs, size)
+		}
+	}
 	if len(grants) > 0 && cur > size {
 		x.h.Viol("sem-over-size", "op=%s granted %v with cur=%d > size=%d", opname, grants, cur, size)
 	}
@@ -371,9 +415,43 @@ func runSem(h *verifx.H, r *verifx.Rng) {
 			}
 		}
 	}
+	x.heldSum = func() int64 {
+		var t int64
+		for _, w := range held {
+			t += w
+		}
+		return t
+	}
 	for i := 0; i < nops; i++ {
 		parkedBefore := append([]int(nil), x.fifo...)
-		switch r.Pick(6, 2, 3, 5, 2, 1) {
+		switch r.Pick(6, 2, 3, 5, 2, 1, 2) {
+		case 6: // release racing with the cancellation of one parked acquire
+			if len(held) == 0 || len(x.fifo) == 0 {
+				continue
+			}
+			k := r.Intn(len(held))
+			n := held[k]
+			held = append(held[:k], held[k+1:]...)
+			id := x.fifo[r.Intn(len(x.fifo))]
+			h.Stat("s.relcancel", 1)
+			h.Op("s relcancel %d %d", n, id)
+			semaphore.VerifReleaseRacingCancel(x.s, n, cancels[id], func() { time.Sleep(300 * time.Microsecond) })
+			var grants, failed []int
+			deadline := time.Now().Add(10 * time.Second)
+			for {
+				g, f, hang := x.settle()
+				grants, failed = append(grants, g...), append(failed, f...)
+				if !x.pending[id] && !hang {
+					break
+				}
+				if time.Now().After(deadline) {
+					h.Viol("sem-hang", "release racing with cancel of %d never settled", id)
+					return
+				}
+			}
+			noteGrants(grants)
+			h.NonTrivial("cancel-races-grant")
+			x.observe("relcancel", grants, failed, parkedBefore)
 		case 0: // acquire
 			id, n := nextID, int64(r.Range(0, 4))
 			nextID++
